@@ -25,7 +25,7 @@ type gVal struct {
 }
 
 // the last key contains U+09DF, whose NFC form is two code points: printing normalises it, storage must not
-var c12Keys = []string{"k", "v", "name", "ক", "n2", "ব\u09dfস", "k2", "k10", "ধাপ২", "ধাপ১০", "K"}
+var c12Keys = []string{"k", "v", "name", "ক", "n2", "ব\u09dfস", "k2", "k10", "ধাপ২", "ধাপ১০", "K", bn.BLen, bn.BKeys} // the last two: spelled like built-in functions, which bars them as declared names only
 
 type c12Gen struct {
 	pick   func(string, int) int
